@@ -31,6 +31,7 @@ type H13Op struct {
 	Env        string `json:"env,omitempty"`     // invoke: environment contents
 	StdoutFail bool   `json:"stdout_fail,omitempty"`
 	GCBefore   bool   `json:"gc_before,omitempty"` // injected fault: a full collection right before this operation
+	Reenter    bool   `json:"reenter,omitempty"`   // injected interference: while inside tr(), the SAME Callable is invoked again on other contents
 	N          int    `json:"n,omitempty"`         // interfere: number of unrelated compilations
 }
 
@@ -268,7 +269,8 @@ func (h *Hist13) keys() []pkey {
 }
 
 type hist13Result struct {
-	GCBefore int
+	Reentries int
+	GCBefore  int
 	Viol     *Violation
 	Sim      simrt.Result
 	Reused   int
@@ -393,11 +395,22 @@ func runHist13(h *Hist13, x *evalCtx) hist13Result {
 				}
 				env, snap, host := carrier(op.Carrier, op.Env, false)
 				cspec := h.Engines[h.Ops[op.C].Eng]
+				if op.Reenter {
+					other := "map2"
+					if st := sameTyped[op.Env]; len(st) > 0 {
+						other = st[(indexOf(st, op.Env)+2)%len(st)]
+					}
+					x.rec.hook = func() {
+						res.Reentries++
+						callWith(cspec, c, envMakers[other]())
+					}
+				}
 				got[i] = x.observe(op.StdoutFail, func(o *obs) {
 					v, dbg, err := callWith(cspec, c, env)
 					valObs(o, v, err)
 					o.Debug = dbg
 				})
+				x.rec.hook = nil
 				if host != nil && deepSnapshot(host) != snap {
 					hostChanged[i] = "host value modified by invocation"
 				}
@@ -594,7 +607,12 @@ func genHist13(r *rng) *Hist13 {
 			} else if r.chance(0.15) {
 				env = envNames[r.intn(len(envNames))]
 			}
-			h.Ops = append(h.Ops, H13Op{K: "invoke", C: ci, Env: env, Carrier: carriers[r.intn(4)], StdoutFail: r.chance(0.05)})
+			iop := H13Op{K: "invoke", C: ci, Env: env, Carrier: carriers[r.intn(4)], StdoutFail: r.chance(0.05)}
+			cp := h.Ops[ci].Prog
+			if h.Engines[h.Ops[ci].Eng].UserFuns && h.Engines[h.Ops[ci].Eng].Backend != "dbg" && strings.Contains(cp.Src, "tr(") && !strings.Contains(cp.Src, "print") && r.chance(0.5) {
+				iop.Reenter, iop.StdoutFail = true, false
+			}
+			h.Ops = append(h.Ops, iop)
 		case c < 10:
 			p := pickProg13(r, false)
 			h.Ops = append(h.Ops, H13Op{K: "eval", Prog: &p, Carrier: carriers[r.intn(3)]})
@@ -745,6 +763,7 @@ func (c13) Batch(seed uint64, wid, batch, count int, deadline time.Time, emit fu
 		c["fault_clock_jump_fired"] += int64(res.Sim.FaultsFired["clock"])
 		c["fault_knob_runs"] += int64(res.Sim.FaultsFired["knob"])
 		c["fault_env_reuse"] += int64(res.Reused)
+		c["fault_reentrant_invocations"] += int64(res.Reentries)
 		c["sim_time_covered_s"] += abs64(res.Sim.ClockEnd - h.Sim.ClockBase)
 		for _, op := range h.Ops {
 			if op.StdoutFail {
@@ -883,6 +902,11 @@ func (c13) Candidates(rf *ReplayFile) []*ReplayFile {
 		if op.GCBefore {
 			n := clone()
 			n.Ops[i].GCBefore = false
+			mk(n)
+		}
+		if op.Reenter {
+			n := clone()
+			n.Ops[i].Reenter = false
 			mk(n)
 		}
 	}
